@@ -402,6 +402,7 @@ func TestVerif_C07Reply(t *testing.T) {
 				expSigs = append(expSigs, x.Sig)
 			}
 			sigsOnly := rng.Intn(4) != 0
+			toCoq := rng.Intn(3) == 0 // every third parameter set also goes to the Coq checker (all its distinct replies)
 			key := fmt.Sprintf("a%d l%d b%s u%s", ai, p.limit, vc07rCoqOpt(p.before), vc07rCoqOpt(p.until))
 			seen := map[string]bool{}
 			orders := map[string]int{}
@@ -494,7 +495,7 @@ func TestVerif_C07Reply(t *testing.T) {
 					rep.Fail("reply-slot-wrong", "a reply entry carries a slot different from its transaction's", mk(obs))
 				}
 				ck := fmt.Sprint(obs)
-				if !seen[ck] {
+				if toCoq && !seen[ck] {
 					seen[ck] = true
 					var ss []string
 					for _, id := range obs {
